@@ -68,8 +68,12 @@ func draw(t *rapid.T) *pbt.Case {
 		maxB = 20
 	}
 	c := &pbt.Case{}
-	g := gen.Default(gen.Regular()).Boost(2, gen.BarrierKinds...).Boost(2, "tags", "secondary", "mark", "join", "safedetails", "stack").Boost(4, "telemetry").Boost(2, "domain", "ukeymarker")
+	g := gen.Default(gen.Regular()).Boost(2, gen.BarrierKinds...).Boost(2, "tags", "secondary", "mark", "join", "safedetails", "stack").Boost(4, "telemetry").Boost(2, "domain", "ukeymarker").Boost(3, "hint", "detail", "hintf0")
 	c.Spec = g.Draw(t, rapid.IntRange(1, maxB).Draw(t, "budget"))
+	gen.SprinkleRepeats(t, c.Spec)
+	if rapid.IntRange(0, 2).Draw(t, "repeated") == 0 {
+		c.Spec = gen.WithRepeatedAnnotations(t, g, c.Spec)
+	}
 	c.SetInt("decoded", rapid.IntRange(0, 1).Draw(t, "decoded"))
 	return c
 }
@@ -111,6 +115,10 @@ func drawHistory(t *rapid.T) *pbt.Case {
 		} else {
 			c.Aux = append(c.Aux, g.Draw(t, rapid.IntRange(1, maxB).Draw(t, "budget")))
 		}
+	}
+	gen.SprinkleRepeats(t, c.Spec)
+	if rapid.IntRange(0, 3).Draw(t, "repeated") == 0 {
+		c.Spec = gen.WithRepeatedAnnotations(t, g, c.Spec)
 	}
 	c.SetInt("decoded", rapid.IntRange(0, 1).Draw(t, "decoded"))
 	return c
